@@ -110,18 +110,27 @@ def derTotalLen : Bytes → Option Nat
       | none => none
       | some (l, rest') => some (1 + (rest.length - rest'.length) + l)
 
-/-- `x509.load_der_x509_certificate(data)`: `syn el` = the element's content parses as a Certificate structure,
-    `body el` = the certificate object (after the post-parse checks: version, …) -/
-def derLoad {γ : Type} (syn : Bytes → Bool) (body : Bytes → Option γ) (data : Bytes) : LoadRes γ :=
+/-- what the decoder says about the CONTENT of one complete element: a Certificate structure, an `ExtraData` error raised INSIDE the
+    element (a nested SEQUENCE whose fields end before its declared end — same error kind as trailing data), any other parse error -/
+inductive SynRes where
+  | ok | extra | bad
+  deriving DecidableEq, Repr
+
+/-- `x509.load_der_x509_certificate(data)`: `syn el` = the decoder's verdict on the element, `body el` = the certificate object
+    (after the post-parse checks: version, …; reached only when nothing follows the element) -/
+def derLoad {γ : Type} (syn : Bytes → SynRes) (body : Bytes → Option γ) (data : Bytes) : LoadRes γ :=
   match derTotalLen data with
   | none => .fail
   | some n =>
     if data.length < n then .fail
-    else if !syn (data.take n) then .fail
-    else if n < data.length then .extraData
-    else match body data with
-      | some c => .ok c
-      | none => .fail
+    else match syn (data.take n) with
+      | .bad => .fail
+      | .extra => .extraData
+      | .ok =>
+        if n < data.length then .extraData
+        else match body data with
+          | some c => .ok c
+          | none => .fail
 
 /-- `Certificate.parse(data)`: PEM loader for text containing `----`, else the stripping DER loader; `ValueError` → SPSDKError -/
 def certParse {γ : Type} (loadPem : Bytes → Option γ) (load : Bytes → LoadRes γ) (data : Bytes) : PyRes γ :=
